@@ -6,6 +6,7 @@ mod c05;
 mod c06;
 mod c08;
 mod c09;
+mod c10;
 mod c12;
 mod c14;
 mod c17;
@@ -22,7 +23,7 @@ mod val;
 use common::*;
 
 fn all_families() -> Vec<Box<dyn Family>> {
-  vec![Box::new(c08::C08), Box::new(c18::C18), Box::new(c09::C09), Box::new(c12::C12), Box::new(thr_ops::C19Ops), Box::new(thr_ops::C19Subjects), Box::new(thr_ops::C11), Box::new(timed::C16), Box::new(timed::C15), Box::new(c01::C01), Box::new(c05::C05Seq), Box::new(c05::C05Thr), Box::new(c06::C06), Box::new(c17::C17), Box::new(c14::C14)]
+  vec![Box::new(c08::C08), Box::new(c18::C18), Box::new(c09::C09), Box::new(c12::C12), Box::new(thr_ops::C19Ops), Box::new(thr_ops::C19Subjects), Box::new(thr_ops::C11), Box::new(timed::C16), Box::new(timed::C15), Box::new(c01::C01), Box::new(c05::C05Seq), Box::new(c05::C05Thr), Box::new(c06::C06), Box::new(c17::C17), Box::new(c14::C14), Box::new(c10::C10)]
 }
 
 fn spec_for(prop: &str) -> Option<CheckSpec> {
@@ -104,6 +105,19 @@ fn spec_for(prop: &str) -> Option<CheckSpec> {
         "lock-operation granularity".into(),
       ],
       families: vec![FamilySpec { fam: Box::new(c12::C12), quick_runs: 150_000, thorough_runs: 3_000_000 }],
+      quick_cap_s: 60,
+      thorough_cap_s: 900,
+    }),
+    "C10" => Some(CheckSpec {
+      property: "C10",
+      level: "exploration",
+      rule: "one case = (subject type, observer attachments, call history incl. misuse); distinct = distinct (workload hash, recorded history hash) pairs; non-trivial = at least one call was made".to_string(),
+      assumptions: vec![
+        "reference state machine = literal reading of the statement; each observer subscribes at most once".into(),
+        "where the statement is silent only weak invariants are asserted: producer calls after the terminal of a Behavior/Replay/Async subject, and AsyncSubject observers that subscribe after a terminal".into(),
+        "HashMap iteration order is perturbed per run (hash-order fault)".into(),
+      ],
+      families: vec![FamilySpec { fam: Box::new(c10::C10), quick_runs: 400_000, thorough_runs: 6_000_000 }],
       quick_cap_s: 60,
       thorough_cap_s: 900,
     }),
